@@ -127,12 +127,22 @@ func VerifC09_Blocks() {
 	for i := 0; i < 3; i++ {
 		env.AddValidator(i, 10_000_000, ChainA)
 	}
+	if sym.Bool("validator-0-offers-mev") {
+		infos, _ := env.Valset.GetValidatorChainInfos(env.Ctx, Vals[0])
+		infos[0].Traits = []string{valsettypes.PIGEON_TRAIT_MEV}
+		if err := env.Valset.SetExternalChainInfoState(env.Ctx, Vals[0], infos); err != nil {
+			panic(err)
+		}
+	}
 	if _, err := env.Valset.TriggerSnapshotBuild(env.Ctx); err != nil {
 		panic(err)
 	}
 	env.SetupFees(sdkmath.LegacyMustNewDecFromStr("1.5"), 0, 1, 2)
+	// the queued call may demand an MEV relayer while only one validator (or none) offers that
+	needMEV := sym.Bool("call-requires-mev-relayer")
 	msg := &evmtypes.Message{TurnstoneID: "compass-" + ChainA, ChainReferenceID: ChainA, Assignee: Vals[0].String(), AssigneeRemoteAddress: models.EthAddrs[0], AssignedAtBlockHeight: sdkmath.NewInt(h),
-		Action: &evmtypes.Message_SubmitLogicCall{SubmitLogicCall: &evmtypes.SubmitLogicCall{HexContractAddress: "0x6666666666666666666666666666666666666666", Payload: []byte{1}, Deadline: 1000, SenderAddress: []byte("sender-address-20byt")}}}
+		Action: &evmtypes.Message_SubmitLogicCall{SubmitLogicCall: &evmtypes.SubmitLogicCall{HexContractAddress: "0x6666666666666666666666666666666666666666", Payload: []byte{1}, Deadline: 1000, SenderAddress: []byte("sender-address-20byt"),
+			ExecutionRequirements: evmtypes.SubmitLogicCall_ExecutionRequirements{EnforceMEVRelay: needMEV}}}}
 	// the message may have been waiting for a long time (old enough to be pruned at this block)
 	putCtx := env.Ctx
 	if h > 400 && sym.Bool("message-is-stale") {
